@@ -76,6 +76,13 @@ def gen_fields(rng, kinds=('named', 'named', 'named', 'unnamed', 'newtype', 'uni
 
 def gen_def(rng):
     multi = rng.random() < 0.2
+    if rng.random() < 0.04:          # #[serde(transparent)]: the one field that is not skipped IS the value (a named field, or a tuple field beside a skipped marker)
+        one = F(rng.choice(['inner', 'value', 'r#type', 'id']), rng.choice(['u8', 'String', 'Inner', 'Vec<u8>']))
+        marker = F('marker', 'PhantomData<u8>', skip=True)
+        shape = rng.choice(['named1', 'named1', 'named2', 'tuple1', 'tuple2'])
+        fields = {'named': [one]} if shape == 'named1' else {'named': rng.sample([one, marker], 2)} if shape == 'named2' else {'unnamed': [dict(one, ident='')]} if shape == 'tuple1' else {'unnamed': [dict(one, ident=''), dict(marker, ident='')]}
+        return {'kind': 'struct', 'name': 'T', 'rename_all': rng.choice(RULES) if rng.random() < 0.3 else None, 'default': False, 'transparent': True,
+                'component': rng.random() < 0.15, 'multi': multi, 'doc': rng.random() < 0.1, 'fields': fields}
     if rng.random() < 0.5:
         fields = gen_fields(rng, ('named', 'named', 'named', 'named', 'unnamed', 'newtype', 'unit'))
         return {'kind': 'struct', 'name': 'T', 'rename_all': rng.choice(RULES) if rng.random() < 0.7 else None, 'default': rng.random() < 0.15 and isinstance(fields, dict) and 'named' in fields,
@@ -137,6 +144,7 @@ def render(d, rng):
     if d.get('rename_all'): p.append(f'rename_all = {lit(d["rename_all"])}')
     if d['kind'] == 'struct':
         if d['default']: p.append('default')
+        if d.get('transparent'): p.append('transparent')
         head = ('/// a type\n' if d.get('doc') else '') + attr_lists(p, d['multi'], rng) + ('#[openapi(component)] ' if d['component'] else '')
         return head + 'struct T' + render_fields(d['fields'], d['multi'], rng, True)
     if d.get('rename_all_fields'): p.append(f'rename_all_fields = {lit(d["rename_all_fields"])}')
@@ -189,7 +197,7 @@ def E(variants, **kw):
 def corpus():
     import random
     rng = random.Random(16)
-    out = [{'case': {'kind': 'catalogue', 'idx': i}, 'stream': 'catalogue'} for i in range(31)]
+    out = [{'case': {'kind': 'catalogue', 'idx': i}, 'stream': 'catalogue'} for i in range(33)]
     N = lambda *fs: {'named': list(fs)}
     U = lambda *tys: {'unnamed': [F('', t) for t in tys]}
     seeds = [  # the definitions behind the repairs, kept as regression inputs
@@ -263,6 +271,9 @@ def expected(view, d):
     """(expected shape, known-finding id or None)"""
     ser = view['ser']
     data = ser['data']
+    if 'struct' in data and ser.get('transparent'):          # serde writes the one field that is not skipped, as it is
+        df = next(df for vf, df in zip(data['fields'], flist(d['fields'])) if not vf['skip_ser'])
+        return ({'with': True} if df['with'] else {'ty': df['ty']}), None
     if 'struct' in data: return exp_fields(data['struct'], data['fields'], flist(d['fields']), ser['container_default']), None
     vs = [(vv, dv) for vv, dv in zip(data['enum'], d['variants']) if not vv['skip_ser']]
     mode, out, kf = ser['tag'], [], None
@@ -359,7 +370,7 @@ def judge(case, out, m):
     exp, kf = expected(view, d)
     if shape != exp:
         v.append(('violation', f'schema {json.dumps(shape)[:400]} — serde\'s shape {json.dumps(exp)[:400]}   [{case["src"][:300]}]') + ((kf,) if kf and strip_null(exp) == strip_null_shape(shape) else ()))
-    if mm is not None and case.get('def') is not None:
+    if mm is not None and case.get('def') is not None and not case['def'].get('transparent'):          # (the Lean transcription has no `transparent`: such definitions are judged against serde_derive alone)
         if mm['macro'] != shape: v.append(('disagree', f'derive: impl {json.dumps(shape)[:300]} model {json.dumps(mm["macro"])[:300]}   [{case["src"][:200]}]'))
         ms = model_serde_view(view, d)
         if mm['serde'] != ms: v.append(('disagree', f'serde: real serde_derive {json.dumps(ms)[:300]} model {json.dumps(mm["serde"])[:300]}   [{case["src"][:200]}]'))
